@@ -90,6 +90,22 @@ def validFlags (pat : Str) (fl : IncrFlags) : Bool :=
   else (!fl.major || isInfix "MAJOR".toList pat) && (!fl.minor || isInfix "MINOR".toList pat)
        && (!fl.patch || isInfix "PATCH".toList pat)
 
+/-- `_normalize_set_version` (new-style patterns): a version given with --set-version is spelled the way the pattern renders it
+    (`1.02.4` ↦ `1.2.4`); text the pattern does not accept is passed on unchanged (the gate then reports it).  Errors other than
+    PatternError propagate. -/
+def normalizeSetVersion (pat v : Str) (today : Nat × Nat × Nat) : Except PErr Str :=
+  match parseVersionInfo v pat today with
+  | .error .pattern => .ok v
+  | .error e => .error e
+  | .ok vi => formatVersion vi pat
+
+/-- the candidate version of `test` / `update`: `--set-version` (normalised) or the bump -/
+def candidateE (old pat : Str) (fl : IncrFlags) (date today : Nat × Nat × Nat) (setVersion : Option Str) :
+    Except PErr (Option Str) :=
+  match setVersion with
+  | some v => (normalizeSetVersion pat v today).map some
+  | none => incr old pat fl date today
+
 inductive CliOutcome
   | announce (new : Str) (pep440 : Str)     -- exit 0
   | exit1                                    -- sys.exit(1)
@@ -104,10 +120,7 @@ def cliTest (old pat : Str) (fl : IncrFlags) (dateGiven : Bool) (date today : Na
   else if !validFlags pat fl then .exit1
   else if dateGiven && fl.pinDate then .exit1
   else
-    let newE : Except PErr (Option Str) := match setVersion with
-      | some v => .ok (some v)
-      | none => incr old pat fl date today
-    match newE with
+    match candidateE old pat fl date today setVersion with
     | .error e => .crash e
     | .ok none => .exit1
     | .ok (some new) =>
@@ -128,10 +141,7 @@ def cliUpdateVersion (scope : TagScope) (ignoreVcsTag : Bool) (pat cfgVersion : 
     match startE with
     | .error e => (.crash e, cfgVersion)
     | .ok old =>
-      let newE : Except PErr (Option Str) := match setVersion with
-        | some v => .ok (some v)
-        | none => incr old pat fl date today
-      match newE with
+      match candidateE old pat fl date today setVersion with
       | .error e => (.crash e, old)
       | .ok none => (.exit1, old)
       | .ok (some new) =>
